@@ -206,6 +206,18 @@ class Outcome:
             for t in traces:
                 if v2[t["tid"]][0] == "ok":
                     explained[t["tid"]] = f
+        # pass 3: a trace may meet two listed deviations at once (e.g. a pushed-down GRAPH block whose rows bind none of the selected variables,
+        # which iteration then drops): all listed deviation models together.  Still only listed findings explain anything.
+        devs = [f for f in findings if f.get("deviation")]
+        left = [t for t, _, _, _ in rejected if t["tid"] not in explained]
+        if len(devs) > 1 and left:
+            v3, st, tr, _ = validate_parallel(trace_module, left, deviations=[f["deviation"] for f in devs], chunk=250, par=6, heap="5g")
+            self.states += st
+            self.transitions += tr
+            combo = {"id": "+".join(f["id"] for f in devs), "what": "several listed findings at once: " + ", ".join(f["id"] for f in devs)}
+            for t in left:
+                if v3[t["tid"]][0] == "ok":
+                    explained[t["tid"]] = combo
         mod = importlib.import_module(modname)
         matcher = getattr(mod, "match_finding", None)
         for t, v, at, job in rejected:
